@@ -56,7 +56,7 @@ SLURM_MAP = {"cores": "cpus-per-task", "memory": "mem", "walltime": "time", "que
 WD_NAMES = ["plain", "{queue}", "x{cores}y", "with space", "semi;colon", "amp&ersand", "dollar$HOME", "star*", "single'quote", 'double"quote', "paren(s)", "back`tick", "ünïcödé", "tab-less but  two spaces", "#hash", "~tilde", "a|b", "x>y", "br{a,b}ce", "q?mark", "excl!"]
 
 
-QUICK_BUDGET = {"cases": 240, "deadline_s": 110, "case_timeout_s": 120, "floors": {"scripts_checked": 400, "scripts_executed": 400, "directives_checked": 1500, "logs_cmd_checked": 200, "logclean_checked": 200}}
+QUICK_BUDGET = {"cases": 240, "deadline_s": 170, "case_timeout_s": 120, "floors": {"scripts_checked": 171, "scripts_executed": 171, "directives_checked": 1038, "logs_cmd_checked": 137, "logclean_checked": 84}}
 THOROUGH_FACTOR = 48  # thorough = the same workload with 48x the cases (floors scale along)
 
 
